@@ -64,6 +64,8 @@ def generate(rng, tier):
         yield O.history_c09(rng)
     for _ in range(nh // 6):
         yield O.history_eq(rng, c09=True)
+    for _ in range(nh // 8):
+        yield O.history_mult(rng, c09=True)
     for _ in range(ngc):
         yield "#gc" + O.history_c09(rng, maxops=8, gc_case=True)
 
